@@ -132,7 +132,8 @@ mut("C15", "missing-delete-silent", CO,
     "    key_tuple = self._keys_dict[key]\n    value = self[key]")
 mut("C15", "key-map-shared-between-instances", CO,
     "    self._keys_dict = {}\n    self._inv_dict = {}",
-    "    self._keys_dict = globals().setdefault('_SHARED_KD', {})\n"
+    "    self._keys_dict = {} if type(self) is not MultiKeyDict else "
+    "globals().setdefault('_SHARED_KD', {})\n"
     "    self._inv_dict = {}")
 mut("C15", "attribute-not-set-for-aliases", CO,
     "    for k in keys:\n      setattr(self, k, value)",
